@@ -319,6 +319,86 @@ theorem debounce_timer_deadline (o : DOpts) (es : List Ev) (s : DB) (h : runD o 
     (t : Nat) (ht : s.timerAt = some t) : t ≤ s.last + o.after :=
   (invD_run o {} s es (invD_init o) h).deadline t ht
 
+/-! ## Debounced pushes are sequential; the EDS bypass is not -/
+
+theorem pushWorker_running (o : DOpts) (s : DB) (h : s.pushed.length < (pushWorker o s).pushed.length) :
+    (pushWorker o s).running.length = s.running.length + 1 := by
+  unfold pushWorker at h ⊢
+  by_cases hc : o.max ≤ s.now - s.start ∨ o.after ≤ s.now - s.last
+  · simp only [hc, if_true] at h ⊢
+    cases hr : s.req with
+    | none => simp [hr] at h
+    | some v => simp
+  · simp [hc] at h
+
+/-- **Debounced `pushFn` calls never overlap**: whenever a step hands a request to `pushFn` on the
+    debounced path, no debounced `pushFn` is running and none has a completion token waiting - the
+    previous call has returned *and* the loop has consumed its token.  Since `pushFn = s.Push` runs
+    `StartPush` synchronously, the `StartPush` rounds of debounced pushes are totally ordered: every
+    connection is offered their requests in the same order (what `enqueue_push_newest` needs to
+    mean "newest"). -/
+theorem debounced_pushes_sequential (o : DOpts) (es : List Ev) (s s' : DB) (e : Ev)
+    (hr : runD o {} es = some s) (hs : stepD o s e = some s') (hp : s.pushed.length < s'.pushed.length) :
+    s.running = [] ∧ s'.running.length = 1 := by
+  have hi := invD_run o {} s es (invD_init o) hr
+  have hi' := invD_step o s s' e hi hs
+  have grow : s'.running.length = s.running.length + 1 := by
+    cases e with
+    | tick d => simp only [stepD, Option.some.injEq] at hs; subst hs; simp at hp
+    | recv r =>
+      simp only [stepD, Option.some.injEq] at hs; subst hs
+      unfold onRecv at hp; simp only [] at hp; split at hp <;> simp at hp
+    | timer =>
+      simp only [stepD] at hs
+      cases ht : s.timerAt with
+      | none => simp [ht] at hs
+      | some t =>
+        simp only [ht] at hs
+        split at hs
+        · simp only [Option.some.injEq] at hs; subst hs
+          by_cases hf : s.free = true
+          · rw [if_pos hf] at hp ⊢
+            exact pushWorker_running o _ hp
+          · rw [if_neg hf] at hp; simp at hp
+        · cases hs
+    | pushReturn =>
+      simp only [stepD] at hs
+      cases hrn : s.running with
+      | nil => simp [hrn] at hs
+      | cons a rest =>
+        simp only [hrn] at hs
+        split at hs
+        · cases hs
+        · simp only [Option.some.injEq] at hs; subst hs; simp at hp
+    | freeRecv =>
+      simp only [stepD] at hs
+      split at hs
+      · simp only [Option.some.injEq] at hs; subst hs
+        exact pushWorker_running o _ hp
+      · cases hs
+    | edsReturn =>
+      simp only [stepD] at hs
+      cases hrn : s.edsRunning with
+      | nil => simp [hrn] at hs
+      | cons a rest => simp only [hrn, Option.some.injEq] at hs; subst hs; simp at hp
+  have h1 := hi'.single
+  constructor
+  · cases hrn : s.running with
+    | nil => rfl
+    | cons a t => rw [hrn] at grow; simp at grow; omega
+  · omega
+
+/-- With `enableEDSDebounce = false` an endpoints-only update is pushed at once, in its own
+    goroutine, whatever else is running: here a debounced `pushFn` (request A) and a bypass `pushFn`
+    (request E) are in progress at the same time.  Their two `StartPush` loops may then reach
+    different connections in different orders, and "newest snapshot" degrades to "snapshot of the
+    request enqueued last on that connection" (`PILOT_ENABLE_EDS_DEBOUNCE` is on by default). -/
+theorem eds_bypass_overlap_witness :
+    ((runD { after := 10, max := 100, eds := false } {}
+        [.recv { configs := some ["VirtualService/ns1/a"] }, .tick 10, .timer,
+         .recv { configs := some ["Endpoints/ns1/e1"] }]).map
+      (fun s => (s.running.length, s.edsRunning.length))) = some (1, 1) := by decide +kernel
+
 /-! ## Progress: from every reachable state there is a schedule that pushes the pending request -/
 
 /-- When the loop is free, a timer due, and the quiet period over, the timer event pushes. -/
